@@ -20,7 +20,7 @@ ID = "C07"
 TITLE = "Bottleneck and Wasserstein obey the metric and invariance laws at any size"
 CASE_TIMEOUT_S = 300.0
 PLAN = {
-    "quick": {"runs": 1600, "chunk": 20, "shrink_s": 40.0},
+    "quick": {"runs": 3200, "chunk": 20, "shrink_s": 40.0},
     "thorough": {"budget_s": 600.0, "chunk": 10, "shrink_s": 90.0},
 }
 LAWS = ("reorder-zero", "reorder-free", "symmetry", "nonneg", "triangle", "add-diagonal", "translate",
